@@ -30,6 +30,7 @@ type bwaiter struct {
 	cancel context.CancelFunc
 	mu     sync.Mutex
 	res    string // "" while blocked
+	gid    int64  // goroutine id of the call
 	told   bool   // result already reported
 	canc   bool
 }
@@ -67,6 +68,9 @@ func (c *blockCtx) spawn(lhs string, off int64, call func(ctx context.Context) (
 			bw.res = res
 			bw.mu.Unlock()
 		}()
+		bw.mu.Lock()
+		bw.gid = goid()
+		bw.mu.Unlock()
 		nxt, ms, err := call(ctx)
 		if err != nil {
 			res = blockingErr(err)
@@ -81,6 +85,7 @@ func (c *blockCtx) spawn(lhs string, off int64, call func(ctx context.Context) (
 // it is reported as blocked; the judgement itself is the driver's.
 func (c *blockCtx) settle() {
 	deadline := time.Now().Add(3 * time.Second)
+	hard := time.Now().Add(10 * time.Second)
 	stable := 0
 	last := ""
 	for stable < 8 {
@@ -105,6 +110,24 @@ func (c *blockCtx) settle() {
 			stable = 0
 		}
 		last = cur
+		if stable >= 8 && time.Now().Before(hard) {
+			// unchanged for a millisecond is not yet "still blocked": on a loaded machine a woken call may only be
+			// waiting for a CPU, or be in the middle of its read. The runtime knows: a call counts as blocked when its
+			// goroutine waits on a channel, a select or a lock.
+			states := goStates()
+			for _, bw := range c.waiters {
+				bw.mu.Lock()
+				r, gid := bw.res, bw.gid
+				bw.mu.Unlock()
+				if r == "" && !reallyBlocked(states[gid]) {
+					if os.Getenv("KVH_DEBUG") != "" {
+						fmt.Fprintf(os.Stderr, "settle: gid=%d state=%q\n", gid, states[gid])
+					}
+					stable = 0
+					break
+				}
+			}
+		}
 	}
 }
 
